@@ -49,7 +49,7 @@ func init() {
 		Gate:        gate,
 		AnchorFiles: []string{"core/tx_pool.go", "core/tx_list.go", "core/tx_journal.go", "core/state/managed_state.go", "core/tx_pool_verif.go"},
 		Assumptions: []string{
-			"the yardstick for 'chain nonce' and 'balance' is the state the pool itself currently works against (reported by the H3 snapshot under pool.mu); the pool follows the chain asynchronously and 'the pool has processed head X' is decided from those state values (unique coinbase per generated block), never by waiting",
+			"the yardstick for 'chain nonce' and 'balance' is the state the pool itself currently works against (reported by the H3 snapshot under pool.mu); the pool follows the chain asynchronously and 'the pool has processed head X' is decided exactly: InsertChain delivers its ChainHeadEvent into the pool's channel before returning, the harness then pushes channel-capacity+1 empty sentinel events through the same channel (the loop takes it in order and ignores events without a block), and ONE snapshot taken after the last sentinel was accepted must show X's state (unique coinbase per generated block); otherwise head_not_followed",
 			"'still valid' for a dropped transaction = nonce >= chain nonce, cost <= balance, gas <= gas limit at the new head, and price >= the pool's threshold unless the sender is local; the demand is waived when the pool's limits could have evicted it (counted as reorg_check_skipped_*)",
 			"the wall-clock eviction of idle queues is switched off through the public Lifetime setting (maximum duration); reorganisations deeper than 64 blocks are not generated",
 			"limits for non-local senders are read as: queue per account <= AccountQueue, queued total <= GlobalQueue, pending total > GlobalSlots implies no account above AccountSlots, total <= GlobalSlots+GlobalQueue",
@@ -63,7 +63,7 @@ func gate(tier string) map[string]int {
 		"snapshots_checked": 5000, "public_views_checked": 100,
 		"replacement_accepted": 50, "replacement_accepted_at_exact_bump": 10, "replacement_refused": 50, "replacement_refused_one_below_bump": 10,
 		"head_advance": 100, "head_reorg": 30, "head_consumed_pending_nonce": 30, "head_made_pending_unaffordable": 5, "head_lowered_gas_limit_below_pending": 3,
-		"head_rolled_nonce_back": 20, "reorg_tx_pooled_again": 20, "reorg_partial_reinject_with_pending_tail": 4,
+		"head_rolled_nonce_back": 20, "reorg_to_equal_height": 10, "reorg_to_lower_height": 3, "reorg_tx_pooled_again": 20, "reorg_partial_reinject_with_pending_tail": 4,
 		"pending_truncated_at_global_slots": 3, "queue_capped_at_account_queue": 3, "queue_truncated_at_global_queue": 1,
 		"setgasprice_demoted_pending_run": 3, "pool_full_eviction": 3,
 		"add_result_ok": 1000, "add_result_nonce_too_low": 5, "add_result_insufficient_funds": 20, "add_result_gas_limit": 5, "add_result_underpriced": 10,
